@@ -436,8 +436,15 @@ impl Calibrations {
 
                 match matching_calibration {
                     Some(calibration) => {
+                        let mut qubit_expansions: HashMap<&String, Qubit> = HashMap::new();
+                        if let Qubit::Variable(identifier) = &calibration.identifier.qubit {
+                            qubit_expansions.insert(identifier, measurement.qubit.clone());
+                        }
+
                         let mut instructions = calibration.instructions.clone();
                         for instruction in instructions.iter_mut() {
+                            substitute_qubit_variables(instruction, &qubit_expansions);
+
                             match instruction {
                                 Instruction::Pragma(pragma)
                                     if pragma.name == "LOAD-MEMORY"
@@ -447,9 +454,18 @@ impl Calibrations {
                                         pragma.data = Some(target.to_quil_or_debug())
                                     }
                                 }
-                                Instruction::Capture(capture) => {
+                                // Only uses of the calibration's own target name stand for the
+                                // measurement's target; other memory references stay as written.
+                                Instruction::Capture(Capture {
+                                    memory_reference, ..
+                                })
+                                | Instruction::RawCapture(RawCapture {
+                                    memory_reference, ..
+                                }) if Some(&memory_reference.name)
+                                    == calibration.identifier.target.as_ref() =>
+                                {
                                     if let Some(target) = &measurement.target {
-                                        capture.memory_reference = target.clone()
+                                        *memory_reference = target.clone()
                                     }
                                 }
                                 _ => {}
